@@ -114,6 +114,8 @@ def scenario(run, rng, pv, idx):
     # the end of each phase so that the phase of every packet is unambiguous
     late = rng.random() < 0.6
     leaver = rng.random() < 0.3
+    repeat_object = rng.random() < 0.3
+    kicked = not leaver and not late and rng.random() < 0.4
     sentinel_id = next(i for i in (0x7B, 0x7A, 0x6A, 0x68)
                        if i not in known and i != unknown_id)
     n_ka2 = rng.randrange(1, 4)
@@ -190,6 +192,31 @@ def scenario(run, rng, pv, idx):
             io.send_frame(sentinel_id, b'S2')
         # let the client talk, then end the conversation
         state['go'].wait(10.0)
+        if state.get('kick_active'):
+            # the server kicks the client while the client is in the middle
+            # of a write: a few more packets, the disconnect packet, close.
+            # Whatever was received must still go through the listener chain.
+            buf = bytearray()
+            for v in (3001, 3002):
+                buf += io.encode_frame(*codec.encode('cb_keep_alive',
+                                                     {'id': v}))
+            buf += io.encode_frame(unknown_id, b'last words')
+            buf += io.encode_frame(*codec.encode('play_disconnect',
+                                                 {'reason': '"kick"'}))
+            state['held'].wait(5.0)
+            # (what the client has written so far is collected first)
+            try:
+                while True:
+                    fr = io.recv_frame(0.25)
+                    if fr is None:
+                        break
+                    state['frames'].append(('any', fr))
+            except mcserver.ScriptTimeout:
+                pass
+            io.send_raw(bytes(buf))
+            io.close()
+            state['closed'].set()
+            return
         if state.get('leaver_active'):
             # the *client* ends this conversation: an early listener calls
             # disconnect() when it sees this keep-alive - without raising
@@ -205,6 +232,8 @@ def scenario(run, rng, pv, idx):
 
     import threading
     state['go'] = threading.Event()
+    state['held'] = threading.Event()
+    state['closed'] = threading.Event()
     state['phase2'] = threading.Event()
     server = mcserver.Server(handler)
     orig_login_react = C.LoginReactor.react
@@ -274,6 +303,15 @@ def scenario(run, rng, pv, idx):
                 config[lst_name].append((lid, types, ()))
                 relays.append((lid, lst_name))
         register_batch(6)
+        if repeat_object:
+            # a catch-all listener at the very end of the chain separates the
+            # writes of a repeatedly written object in the log
+            lid_counter[0] += 1
+            tail_lid = lid_counter[0]
+            conn.register_packet_listener(
+                make_listener(tail_lid, 'out', (Packet,), ()), Packet,
+                outgoing=True)
+            config['out'].append((tail_lid, (Packet,), ()))
         if leaver:
             lid_counter[0] += 1
             leaver_lid = lid_counter[0]
@@ -338,9 +376,20 @@ def scenario(run, rng, pv, idx):
             return 'never reached play state'
         # outgoing traffic from the user thread
         sent_out = []
-        for j in range(rng.randrange(1, 5)):
+        repeated = {}
+        plan_out = [None] * rng.randrange(1, 5)
+        if repeat_object:
+            # the same packet *object* is written several times (a program
+            # that updates and re-sends one packet per tick)
+            pr = sb.play.ChatPacket(message='out-%d-again' % idx)
+            plan_out += [pr, pr, pr]
+            rng.shuffle(plan_out)
+            repeated[id(pr)] = 3
+            run.count('scenarios_writing_one_object_repeatedly')
+        for j, given in enumerate(plan_out):
             K = rng.choice((sb.play.ChatPacket, MyChat))
-            p = K(message='out-%d-%d' % (idx, j))
+            p = given if given is not None else \
+                K(message='out-%d-%d' % (idx, j))
             force = rng.random() < 0.5
             sent_out.append((p, force))
             packets_alive.append(p)
@@ -374,6 +423,7 @@ def scenario(run, rng, pv, idx):
             return 'phase 1 never completed (%r)' % (rec.exceptions[:1],)
         config1 = {k: list(v) for k, v in config.items()}
         marker = None
+        kick_marker = None
         sent_out2 = []
         if late:
             register_batch(4)
@@ -398,6 +448,30 @@ def scenario(run, rng, pv, idx):
             if not settle(2):
                 return 'phase 2 never completed (%r)' % (rec.exceptions[:1],)
             run.count('scenarios_with_late_registration')
+        if kicked:
+            # a queued write whose early listener holds the networking thread
+            # until the server has sent its last packets and closed
+            def hold(packet):
+                note('cb.listener', packet, 'out', lid=hold_lid)
+                if packet.message == 'held-%d' % idx:
+                    state['held'].set()
+                    state['closed'].wait(5.0)
+                    time.sleep(0.03)
+            lid_counter[0] += 1
+            hold_lid = lid_counter[0]
+            conn.register_packet_listener(hold, sb.play.ChatPacket,
+                                          outgoing=True, early=True)
+            config['early_out'].append((hold_lid, (sb.play.ChatPacket,), ()))
+            marker = log.emit('marker.kick')
+            # (an earlier early listener that ignores chat packets keeps the
+            # packet from the holding one: ordinary ending then)
+            if hold_lid in predict_out(sb.play.ChatPacket)[0]:
+                kick_marker = marker
+                state['kick_active'] = True
+                run.count('scenarios_kicked_while_writing')
+                held_packet = sb.play.ChatPacket(message='held-%d' % idx)
+                packets_alive.append(held_packet)
+                conn.write_packet(held_packet)
         state['go'].set()
         if not pc.wait_idle(conn, 20.0):
             return 'threads alive: ' + pc.dump_threads()
@@ -459,9 +533,17 @@ def scenario(run, rng, pv, idx):
             cfg_now = config if (marker is not None and
                                  entry['first'] > marker) else config1
             exp, _full = (predict_out if outgoing else predict_in)(K, cfg_now)
+            exp = exp * repeated.get(key, 1)
             n_checked += 1
             run.count('packets_dispatched')
             run.count('dispatched.' + ('out' if outgoing else 'in'))
+            if outgoing and kick_marker is not None and \
+                    entry['first'] > kick_marker and 'send' in exp and \
+                    calls == exp[:exp.index('send') + 1]:
+                # written to a peer that had already gone: the write itself
+                # failed, so the stages after it did not take place
+                run.count('writes_to_a_peer_that_had_gone')
+                continue
             if calls != exp:
                 run.violation(
                     'listeners/%s-sequence' % ('outgoing' if outgoing
@@ -485,6 +567,11 @@ def scenario(run, rng, pv, idx):
             sent_by_cls[c_] = sent_by_cls.get(c_, 0) + 1
         sent_by_cls['Packet'] = sent_by_cls.get('Packet', 0) + (2 if late
                                                                 else 1)
+        if state.get('kick_active'):
+            sent_by_cls['KeepAlivePacket'] = sent_by_cls.get(
+                'KeepAlivePacket', 0) + 2
+            sent_by_cls['Packet'] = sent_by_cls.get('Packet', 0) + 1
+            sent_by_cls['DisconnectPacket'] = 1
         if state.get('leaver_active'):
             run.count('scenarios_where_an_early_listener_disconnects')
             sent_by_cls['KeepAlivePacket'] = sent_by_cls.get(
@@ -674,5 +761,7 @@ def run(run):
     run.require('dispatched.in', 30)
     run.require('scenarios_with_late_registration', 5)
     run.require('nested_writes_from_listeners', 5)
+    run.require('scenarios_kicked_while_writing', 5)
+    run.require('scenarios_writing_one_object_repeatedly', 5)
     run.require('scenarios_where_an_early_listener_disconnects', 5)
     run.require('combat_subclass_packets', 5)
